@@ -65,6 +65,7 @@ type c13Explorer struct {
 	base      string
 	lastDiff  string
 	lastChanged map[string]bool // tasks whose dump line differs in the last rollback mismatch
+	claimSeqs int // sequences after which (before the discard) the claim view differs from the pristine one
 }
 
 func sortedJobs(ssn *framework.Session) []*podgroup_info.PodGroupInfo {
@@ -371,6 +372,21 @@ func claimUndoClass(diff string, changed map[string]bool, before []c13Op) string
 	return " undo=first"
 }
 
+// claimPart: the resource-claim section of a dump (task claim devices + claim view lines).
+func claimPart(d string) string {
+	var sb strings.Builder
+	for _, l := range strings.Split(d, "\n") {
+		t := strings.TrimSpace(l)
+		switch {
+		case strings.HasPrefix(t, "T "):
+			sb.WriteString(claimsOf(t) + "\n")
+		case strings.HasPrefix(t, "C "), strings.HasPrefix(t, "CD "), strings.HasPrefix(t, "CP "):
+			sb.WriteString(t + "\n")
+		}
+	}
+	return sb.String()
+}
+
 // changedTasks: names of the tasks whose "T" line differs between two dumps.
 func changedTasks(a, b string) map[string]bool {
 	lines := func(d string) map[string]string {
@@ -477,7 +493,11 @@ func (e *c13Explorer) explore() {
 		if !e.verified[key] {
 			e.sequences++
 		}
-		e.distinct[engine.HashKey(sessioncheck.Dump(e.ssn))] = true
+		dBefore := sessioncheck.Dump(e.ssn)
+		e.distinct[engine.HashKey(dBefore)] = true
+		if !e.verified[key] && claimPart(dBefore) != claimPart(d0) {
+			e.claimSeqs++
+		}
 		if len(e.samples) < 4 && len(prefix) == e.depth {
 			e.samples = append(e.samples, seqString(prefix))
 		}
@@ -616,6 +636,7 @@ type c13Result struct {
 	Sequences  int                `json:"sequences"`
 	Ops        int                `json:"ops"`
 	Rollbacks  int                `json:"rollbacks"`
+	ClaimSeqs  int                `json:"claim_seqs"`
 	Distinct   []string           `json:"distinct"`
 	Samples    []string           `json:"samples"`
 	CapHit     bool               `json:"cap_hit"`
@@ -656,7 +677,7 @@ func runC13(tier string) int {
 					break
 				}
 			}
-			out := c13Result{Base: name, Sequences: ex.sequences, Ops: ex.ops, Rollbacks: ex.rollbacks, Distinct: maps.Keys(ex.distinct), Samples: ex.samples, CapHit: ex.capHit, Violations: ex.viol}
+			out := c13Result{Base: name, Sequences: ex.sequences, Ops: ex.ops, Rollbacks: ex.rollbacks, ClaimSeqs: ex.claimSeqs, Distinct: maps.Keys(ex.distinct), Samples: ex.samples, CapHit: ex.capHit, Violations: ex.viol}
 			if err != nil {
 				out.Err = err.Error()
 			} else if res.Panic != "" {
@@ -690,6 +711,10 @@ func runC13(tier string) int {
 		total.Sequences += r.Sequences
 		total.Ops += r.Ops
 		total.Rollbacks += r.Rollbacks
+		total.ClaimSeqs += r.ClaimSeqs
+		if bases[r.Base] != nil && bases[r.Base].HasDRA() && r.ClaimSeqs == 0 && len(r.Violations) == 0 && r.Err == "" {
+			herr = "vacuous: base " + r.Base + " has DRA objects but no explored sequence changed the scheduler's claim view (is Dynamic Resource Allocation on?)"
+		}
 		total.CapHit = total.CapHit || r.CapHit
 		for _, d := range r.Distinct {
 			distinct[d] = true
@@ -709,7 +734,7 @@ func runC13(tier string) int {
 	code := rep.Finish()
 	cov := map[string]any{
 		"states": len(distinct), "transitions": total.Ops, "traces_validated_against_impl": total.Sequences,
-		"samples": samples, "sequences": total.Sequences, "operations_executed": total.Ops, "rollbacks_checked": total.Rollbacks,
+		"samples": samples, "sequences": total.Sequences, "operations_executed": total.Ops, "rollbacks_checked": total.Rollbacks, "sequences_changing_claim_view": total.ClaimSeqs,
 		"depth": depth, "bases": names, "commit_cycles_checked": commitCycles, "commit_decisions_checked": commitDecisions, "exhaustive": !total.CapHit, "cap_hit": total.CapHit,
 		"evaluations": total.Sequences, "distinct_nontrivial": len(distinct),
 		"rule": "all well-formed sequences (length <= depth) of {AllocateJob real, AllocateJob pipeline-only, Evict, Unevict, Checkpoint, Rollback(cp_i), ConvertAllAllocatedToPipelined} enabled in the live session state, from the base sessions (see bases) opened through the real snapshot path; each sequence ends with Discard; distinct = distinct scheduler views reached before the discard",
